@@ -279,7 +279,7 @@ fn gen_pattern(rng: &mut Rng, allow_all: bool) -> Pat {
 
 /// `… -> all X where <self-referencing filter> as x -> …`: exactly one `all` step, neither first nor last;
 /// later filters and `.not` clauses do not mention its alias (Model/Sase.lean `Pat.deferredOK`)
-fn gen_deferred_pattern(rng: &mut Rng) -> Pat {
+fn gen_deferred_pattern(rng: &mut Rng, later_refs: bool) -> Pat {
     let n = if rng.chance(2, 3) { 3 } else { 4 };
     let ki = rng.range(1, n as i64 - 2) as usize;
     let ntypes = rng.range(2, 4) as u64;
@@ -297,7 +297,17 @@ fn gen_deferred_pattern(rng: &mut Rng) -> Pat {
                 1 => P::Or(Box::new(gen_pred(rng, 1, &aliases, &None)), Box::new(selfp)),
                 _ => selfp,
             };
-            steps.push(Step { ty, pred: Some(pred), alias: Some(own), kleene: true });
+            steps.push(Step { ty, pred: Some(pred), alias: Some(own.clone()), kleene: true });
+            // known finding C01-enum-later-ref: later filters / `.not` clauses may mention the Kleene alias
+            if later_refs { aliases.push(own); }
+        } else if later_refs && j == ki + 1 {
+            let kal = names[ki].to_string();
+            let field = rng.pick(&["x", "x", "y"]).to_string();
+            let refp = P::Ref(field.clone(), *rng.pick(&OPS), kal, field);
+            let pred = if rng.chance(1, 3) { P::And(Box::new(refp), Box::new(gen_pred(rng, 1, &aliases, &None))) } else { refp };
+            let alias = Some(names[j].to_string());
+            steps.push(Step { ty, pred: Some(pred), alias: alias.clone(), kleene: false });
+            aliases.push(names[j].to_string());
         } else {
             let alias = if rng.chance(9, 10) { Some(names[j].to_string()) } else { None };
             let pred = if j > 0 && rng.chance(1, 2) { Some(gen_pred(rng, 1, &aliases, &None)) } else { None };
@@ -314,6 +324,35 @@ fn gen_deferred_pattern(rng: &mut Rng) -> Pat {
     }
     let (max_kleene, max_results) = if rng.chance(1, 4) { (rng.range(1, 4) as u32, rng.range(1, 5) as usize) } else { (20, 10000) };
     Pat { steps, partition, negs, max_runs: 10000, max_kleene, max_results, deferred: true, form: Form::Arrow }
+}
+
+/// known finding C01-late-selfref-all: a consistent `all` step followed (later) by a non-last `all` step whose
+/// filter references its own alias (the capture exists without a deferred predicate, the filter is never evaluated)
+fn gen_late_selfref_pattern(rng: &mut Rng) -> Pat {
+    let n = if rng.chance(1, 2) { 3 } else { 4 };
+    let k1 = if n == 3 { 0 } else { rng.range(0, 1) as usize };
+    let k2 = if n == 3 { 1 } else { rng.range(k1 as i64 + 1, 2) as usize };
+    let ntypes = rng.range(2, 4) as u64;
+    let names = ["a", "b", "c", "d"];
+    let mut steps: Vec<Step> = Vec::new();
+    let mut aliases: Vec<String> = Vec::new();
+    for j in 0..n {
+        let ty = rng.below(ntypes) as usize;
+        let own = names[j].to_string();
+        if j == k2 {
+            let field = rng.pick(&["x", "x", "y"]).to_string();
+            steps.push(Step { ty, pred: Some(P::Ref(field.clone(), *rng.pick(&OPS), own.clone(), field)), alias: Some(own.clone()), kleene: true });
+        } else if j == k1 {
+            let pred = if j > 0 && rng.chance(1, 3) { Some(gen_pred(rng, 1, &aliases, &None)) } else { None };
+            steps.push(Step { ty, pred, alias: Some(own.clone()), kleene: true });
+        } else {
+            let pred = if j > 0 && rng.chance(1, 3) { Some(gen_pred(rng, 1, &aliases, &None)) } else { None };
+            steps.push(Step { ty, pred, alias: Some(own.clone()), kleene: false });
+        }
+        aliases.push(own);
+    }
+    let partition = if rng.chance(1, 4) { Some("k".to_string()) } else { None };
+    Pat { steps, partition, negs: Vec::new(), max_runs: 10000, max_kleene: 20, max_results: 10000, deferred: false, form: Form::Arrow }
 }
 
 fn gen_fields(rng: &mut Rng) -> Vec<(String, V)> {
@@ -512,6 +551,11 @@ fn fixed_patterns(allow_all: bool) -> Vec<Pat> {
         let mut d2 = base(vec![st(0, "a", false, None), st(1, "b", true, Some(P::And(Box::new(refp("x", Op::Ge, "b")), Box::new(refp("x", Op::Gt, "a"))))), st(2, "c", false, Some(refp("y", Op::Eq, "a")))], true, vec![(3, None)], Form::Arrow);
         d2.deferred = true;
         v.push(d1); v.push(d2);
+        // witnesses of the known findings C01-enum-later-ref and C01-late-selfref-all (replayed on every run)
+        let mut k1 = base(vec![st(0, "a", false, None), st(1, "b", true, Some(refp("x", Op::Gt, "b"))), st(2, "c", false, Some(refp("x", Op::Lt, "b")))], false, vec![], Form::Arrow);
+        k1.deferred = true;
+        let k2 = base(vec![st(0, "a", false, None), st(1, "b", true, None), st(2, "c", true, Some(refp("x", Op::Gt, "c"))), st(3, "d", false, None)], false, vec![], Form::Arrow);
+        v.push(k1); v.push(k2);
     }
     v
 }
@@ -530,7 +574,10 @@ pub fn run(ctx: &mut Ctx, name: &str) {
     let (programs, streams, maxlen) = if thorough { (3000, 30, 24) } else { (260, 14, 12) };
     let mut pats = fixed_patterns(allow_all);
     let nfixed = pats.len();
-    for _ in 0..programs { let p = if allow_all && ctx.rng.chance(1, 7) { gen_deferred_pattern(&mut ctx.rng) } else { gen_pattern(&mut ctx.rng, allow_all) }; pats.push(p); }
+    for _ in 0..programs { let p = if allow_all && ctx.rng.chance(1, 7) { let lr = ctx.rng.chance(1, 4); gen_deferred_pattern(&mut ctx.rng, lr) }
+            else if allow_all && ctx.rng.chance(1, 25) { gen_late_selfref_pattern(&mut ctx.rng) }
+            else { gen_pattern(&mut ctx.rng, allow_all) };
+        pats.push(p); }
     for (pi, pat) in pats.iter().enumerate() {
         count_pattern(ctx, pat);
         let program = pat.vpl().map(|src| vpl_parse(&src));
